@@ -237,7 +237,7 @@ Fixpoint table_at (l : list Z) (stride : nat) (recs : list (list Z)) : bool :=
 
 (* a record of layout L can be read at [off] *)
 Definition readable (img : list Z) (off : Z) (L : layout) : bool :=
-  (0 <=? off) && (off <? zlen img) &&
+  (0 <=? off) && (off <? zlenT img) &&
   match decode_layout L (drop off img) with Some _ => true | None => false end.
 
 Definition zero_shdr : shdr_spec :=
@@ -345,7 +345,7 @@ Definition req_ok (img : list Z) (s : image_spec) (h : shdr_spec) (r : req) : bo
   | RRela => sh_entsize h =? (if i_is64 s then 24 else 12)
   | RRelr => sh_entsize h =? (if i_is64 s then 8 else 4)
   | RDynamic => dynamic_link_ok img s (sh_link h)
-  | RAttr => (sh_offset h <? zlen img) && at_ img (sh_offset h) [65]
+  | RAttr => (sh_offset h <? zlenT img) && at_ img (sh_offset h) [65]
   | RHash => symtab_link_ok img s (sh_link h) && readable img (sh_offset h) (spec_Elf_Hash (i_le s))
   | RGnuHash => symtab_link_ok img s (sh_link h) &&
                 readable img (sh_offset h) (spec_Gnu_Hash (i_le s) (i_is64 s))
@@ -361,6 +361,6 @@ Definition FILE_LIMIT : Z := 2 ^ 63.
 
 (* ------------------------------------------------------------------ the well-formedness predicate *)
 Definition wf_image (img : list Z) (s : image_spec) : bool :=
-  (zlen img <? FILE_LIMIT) &&
+  (zlenT img <? FILE_LIMIT) &&
   ehdr_ok img s && counts_ok s && sections_ok img s && segments_ok img s &&
   names_ok img s && kinds_ok img s.
